@@ -1,5 +1,8 @@
 // C14 - packets and payloads behave as values (snapshot equality, equality laws).
 #include <asam_cmp/tecmp_can_payload.h>
+#include <asam_cmp/tecmp_capture_module_payload.h>
+#include <asam_cmp/tecmp_interface_payload.h>
+#include <asam_cmp/tecmp_lin_payload.h>
 #include <asam_cmp/tecmp_payload.h>
 
 #include "../common/lib.h"
@@ -348,7 +351,10 @@ static Verdict runPayload(const Case& c, Info& info, P srcInit, P dstInit)
         {
             Bytes nb = nearlyEqualBytes(src.getRawPayload(), src.getLength(), c.payloadDiff, bit);
             static const uint8_t dummy = 0;
-            other = P(src.getType(), nb.empty() ? &dummy : nb.data(), nb.size());
+            if constexpr (std::is_constructible_v<P, decltype(src.getType()), const uint8_t*, size_t>)
+                other = P(src.getType(), nb.empty() ? &dummy : nb.data(), nb.size());
+            else
+                other = P(nb.empty() ? &dummy : nb.data(), nb.size());  // typed classes take their type from the class
         }
         info.tag("nearly_equal_payload_pair");
     }
@@ -392,7 +398,7 @@ static Verdict runPayload(const Case& c, Info& info, P srcInit, P dstInit)
         srcPtr.reset();
         VF_CHECK(psnap(*res) == before, "destroying the moved-from payload changed the result");
     }
-    info.tag(c.domain == 1 ? "asam_payload" : "tecmp_payload");
+    info.tag(c.domain == 1 ? "asam_payload" : c.domain == 2 ? "tecmp_payload" : c.domain == 3 ? "asam_typed_payload_class" : "tecmp_typed_payload_class");
     info.nontrivial = true;
     return Verdict::pass();
 }
@@ -419,12 +425,68 @@ static TECMP::Payload makeTecmpPayload(const PacketSpec& s)
     return TECMP::Payload(TECMP::PayloadType(type), b.data(), b.size());
 }
 
+// typed payload classes: objects of the class itself (not sliced to the base), source and target of the same class
+template <class P>
+static P makeTyped(uint8_t kind, const PacketSpec& s)
+{
+    PacketRecipe r = s.r;
+    r.kind = kind;
+    r.len = std::min<uint32_t>(r.len, PacketRecipe::maxLen(kind));
+    Bytes b = oracleBytes(r, deriveFields(r));
+    if (s.shape == 2)
+        b.resize(PacketRecipe::headerSize(kind));  // nothing behind the fixed header
+    return P(b.data(), b.size());
+}
+template <class P>
+static P makeTecmpTyped(size_t header, const PacketSpec& s)
+{
+    Bytes b = fillBytes(s.r.seed, header + (s.shape == 2 ? 0 : s.r.len % 40));
+    return P(b.data(), b.size());
+}
+
 static Verdict runCase(const Case& c, Info& info)
 {
     if (c.domain == 0)
         return runPacket(c, info);
     if (c.domain == 1)
         return runPayload<lib::Payload>(c, info, makeAsamPayload(c.src), makeAsamPayload(c.dst));
+    if (c.domain == 3)
+    {
+        switch (c.src.r.kind % 7)
+        {
+            case 0:
+                return runPayload<lib::CanPayload>(c, info, makeTyped<lib::CanPayload>(rkCan, c.src), makeTyped<lib::CanPayload>(rkCan, c.dst));
+            case 1:
+                return runPayload<lib::CanFdPayload>(c, info, makeTyped<lib::CanFdPayload>(rkCanFd, c.src), makeTyped<lib::CanFdPayload>(rkCanFd, c.dst));
+            case 2:
+                return runPayload<lib::LinPayload>(c, info, makeTyped<lib::LinPayload>(rkLin, c.src), makeTyped<lib::LinPayload>(rkLin, c.dst));
+            case 3:
+                return runPayload<lib::EthernetPayload>(c, info, makeTyped<lib::EthernetPayload>(rkEthernet, c.src), makeTyped<lib::EthernetPayload>(rkEthernet, c.dst));
+            case 4:
+                return runPayload<lib::AnalogPayload>(c, info, makeTyped<lib::AnalogPayload>(rkAnalog, c.src), makeTyped<lib::AnalogPayload>(rkAnalog, c.dst));
+            case 5:
+                return runPayload<lib::CaptureModulePayload>(c, info, makeTyped<lib::CaptureModulePayload>(rkCmStatus, c.src),
+                                                             makeTyped<lib::CaptureModulePayload>(rkCmStatus, c.dst));
+            default:
+                return runPayload<lib::InterfacePayload>(c, info, makeTyped<lib::InterfacePayload>(rkIfStatus, c.src), makeTyped<lib::InterfacePayload>(rkIfStatus, c.dst));
+        }
+    }
+    if (c.domain == 4)
+    {
+        switch (c.src.r.kind % 4)
+        {
+            case 0:
+                return runPayload<TECMP::CanPayload>(c, info, makeTecmpTyped<TECMP::CanPayload>(5, c.src), makeTecmpTyped<TECMP::CanPayload>(5, c.dst));
+            case 1:
+                return runPayload<TECMP::LinPayload>(c, info, makeTecmpTyped<TECMP::LinPayload>(2, c.src), makeTecmpTyped<TECMP::LinPayload>(2, c.dst));
+            case 2:
+                return runPayload<TECMP::CaptureModulePayload>(c, info, makeTecmpTyped<TECMP::CaptureModulePayload>(36, c.src),
+                                                               makeTecmpTyped<TECMP::CaptureModulePayload>(36, c.dst));
+            default:
+                return runPayload<TECMP::InterfacePayload>(c, info, makeTecmpTyped<TECMP::InterfacePayload>(28, c.src),
+                                                           makeTecmpTyped<TECMP::InterfacePayload>(28, c.dst));
+        }
+    }
     return runPayload<TECMP::Payload>(c, info, makeTecmpPayload(c.src), makeTecmpPayload(c.dst));
 }
 
@@ -458,7 +520,7 @@ static rc::Gen<Case> genCase(int)
 {
     return rc::gen::exec([]() {
         Case c;
-        c.domain = *rc::gen::weightedElement<uint8_t>({{6, 0}, {2, 1}, {2, 2}});
+        c.domain = *rc::gen::weightedElement<uint8_t>({{6, 0}, {2, 1}, {2, 2}, {3, 3}, {2, 4}});
         c.relation = *rc::gen::weightedElement<uint8_t>({{5, 0}, {2, 1}, {2, 2}, {2, 3}, {4, 4}});
         c.op = *range<uint8_t>(0, 3);
         c.src = *genSpec();
